@@ -51,15 +51,17 @@ type Fault struct {
 
 // Tracer is the process-wide hook handler.
 type Tracer struct {
-	mu       sync.Mutex
-	Path     string // only events of this path are recorded/injected ("" = all)
-	KeepData bool
-	Events   []Event
-	seq      int
-	counting bool
-	count    int // events seen since arming
-	fault    *Fault
-	Fired    *Event // the event the fault hit
+	mu        sync.Mutex
+	Path      string // only events of this path are recorded/injected ("" = all)
+	KeepData  bool
+	Events    []Event
+	seq       int
+	counting  bool
+	count     int // events seen since arming
+	fault     *Fault
+	Fired     *Event // the event the fault hit
+	armPos    int
+	MetaLimit int64 // offsets below this are meta pages (2 * page size)
 
 	// OnAfter is called (with the tracer unlocked) after every successfully
 	// or unsuccessfully performed operation; online monitors hang here.
@@ -262,4 +264,30 @@ func (t *Tracer) YieldStats() map[string]int64 {
 // Rand returns a deterministic PRNG for (seed, stream).
 func Rand(seed int64, stream int64) *rand.Rand {
 	return rand.New(rand.NewSource(seed*1000003 + stream*7919 + 17))
+}
+
+// ArmFault / DisarmFault implement exec.Injector.
+func (t *Tracer) ArmFault(k int, partial int) {
+	t.mu.Lock()
+	t.armPos = len(t.Events)
+	t.mu.Unlock()
+	t.Arm(&Fault{K: k, Partial: partial})
+}
+
+func (t *Tracer) DisarmFault() (counted int, firedOp string, firedOff int64, metaWritten bool) {
+	t.mu.Lock()
+	defer t.mu.Unlock()
+	counted = t.count
+	t.counting = false
+	t.fault = nil
+	if t.Fired != nil {
+		firedOp, firedOff = t.Fired.Op, t.Fired.Off
+	}
+	// was a complete meta page write performed since arming?
+	for _, e := range t.Events[t.armPos:] {
+		if e.Op == "write" && e.Err == "" && t.MetaLimit > 0 && e.Off < t.MetaLimit {
+			metaWritten = true
+		}
+	}
+	return
 }
